@@ -12,6 +12,12 @@ CLAIMS = {
  'C01': dict(engine='netmc', ref='DESIGN.md §2, §5 C01',
    text='Every environment schedule with <= d deviations (delayed peer action, slow/partial reader, short write, would-block) of every tunnel / HTTP relay scenario (payload alphabet x packings x scaled and full-size buffer thresholds) is executed on the real LocalFdExecutor event loop; client and upstream byte streams are compared for equality with what the peers sent.',
    note=NETMC_NOTE, technique='stateless model checking of the implementation (deviation-bounded exhaustive schedule enumeration over the real event loop)'),
+ 'C05': dict(engine='netmc', ref='DESIGN.md §2, §5 C05', category='model_checking',
+   text='Two or three connections share ONE real executor loop (local and remote mode). The adversary connection runs every script of a corpus (malformed and non-UTF-8 requests, truncation at chosen/every byte, client abort/RST/half-close, upstream refuse/timeout/unreachable/DNS failure/early close/garbage, all four proxy roles incl. a second keep-alive request) and, on top, every single injected I/O error (connect/send/recv) and every postponed peer action (d<=1 quick, d<=2 thorough, plus both orders of same-tick task completion); a canary connection started concurrently, 3 turns later and after the adversary, must be served exactly as when alone and run() must not return.',
+   note=NETMC_NOTE, technique='stateless model checking of the implementation with exhaustive single/double fault injection at every SUT I/O call'),
+ 'C10': dict(engine='netmc', ref='DESIGN.md §2, §5 C10', category='model_checking',
+   text='For every history of the C05 corpus (all roles, every abort kind, connect failures, protocol errors) once and three times in a row, for idle-timeout histories under the virtual clock, and for every single injected I/O error / postponed peer action on top, the state at quiescence (executor still running, after gc.collect()) is inspected: /proc/self/fd minus harness descriptors equals the snapshot before the first connection, and works / registered events / unfinished tasks / selector map are back to empty.',
+   note=NETMC_NOTE + ' A socket closed only by the cyclic GC counts as released.', technique='stateless model checking of the implementation with fault enumeration and a kernel-object census at quiescence'),
  'C07': dict(engine='netmc', ref='DESIGN.md §2, §5 C07',
    text='Every environment schedule with <= d deviations (slow/partial client reads, short writes, would-block, delayed upstream close) of every scenario in which the proxy closes after producing output (400/404/407/502, static files up to 200 KiB over 4 KiB kernel buffers, relayed response followed by upstream close, early upstream response with failing upstream write) is executed in local, remote and threaded mode; bytes read by the client up to end-of-stream must equal the reference output (h11-valid) / everything the proxy read from the upstream, and the close must follow the last accepted byte within 4 loop iterations.',
    note=NETMC_NOTE, technique='stateless model checking of the implementation (deviation-bounded exhaustive schedule enumeration, three execution modes)'),
